@@ -316,11 +316,21 @@ func main() {
 		c, ok := es.X.(*ast.CallExpr)
 		return ok && calleeName(c) == "reload"
 	}
-	endsWithReload := func(body *ast.BlockStmt) bool {
+	endsWithReload := func(self string, body *ast.BlockStmt) bool {
 		list := body.List
 		if n := len(list); n > 0 {
 			if _, isRet := list[n-1].(*ast.ReturnStmt); isRet {
 				list = list[:n-1]
+			}
+		}
+		// a tail call of the phase to itself after the reload (`if again { return phase(opts) }`): that run ends the same way
+		if n := len(list); n > 0 {
+			if is, ok := list[n-1].(*ast.IfStmt); ok && is.Else == nil && len(is.Body.List) == 1 {
+				if rs, ok := is.Body.List[0].(*ast.ReturnStmt); ok && len(rs.Results) == 1 {
+					if c, ok := rs.Results[0].(*ast.CallExpr); ok && calleeName(c) == self {
+						list = list[:n-1]
+					}
+				}
 			}
 		}
 		if len(list) == 0 {
@@ -338,7 +348,7 @@ func main() {
 	var phasesWithoutReload []string
 	for _, ph := range []string{"expand", "normalizeRef", "removeUnusedShared", "importReferences", "nameInlinedSchemas", "stripOAIGen", "namePointers", "removeUnusedSinglePass"} {
 		fd := root.fn(ph)
-		if fd == nil || !endsWithReload(fd.Body) {
+		if fd == nil || !endsWithReload(ph, fd.Body) {
 			phasesWithoutReload = append(phasesWithoutReload, ph)
 		}
 	}
